@@ -187,7 +187,7 @@ func (m *MonC02) AfterTx(w *World, b *BlockCtx, tm *TxMeta, r abci.ResponseDeliv
 	for _, a := range addrs {
 		for _, bal := range cs.Accounts().GetBalances(a) {
 			if bal.Value.Sign() < 0 {
-				w.Report("C02", "non-negative", "hot-balance", fmt.Sprintf("height %d after %s (code %d): live balance of %s coin %d is %s", b.Height, tm.Kind, r.Code, a, bal.Coin.ID, bal.Value), b.Height)
+				w.Report("C02", "non-negative", "hot-balance", fmt.Sprintf("height %d after %s (code %d): live balance of %s coin %d is %s", b.Height, tm.Kind, r.Code, a.String(), bal.Coin.ID, bal.Value), b.Height)
 				return
 			}
 		}
